@@ -37,6 +37,8 @@ func EncodeStyled(ext string, docs []tv.T, style string) ([]byte, error) {
 				if i == 0 {
 					buf.WriteString("---\n")
 				}
+			case "plainkeys":
+				plainKeys(n)
 			case "flow":
 				setFlow(n)
 			case "anchors":
@@ -72,6 +74,27 @@ func EncodeStyled(ext string, docs []tv.T, style string) ([]byte, error) {
 		return buf.Bytes(), nil
 	}
 	return Encode(ext, docs)
+}
+
+// PlainKeyStrings are map keys that a YAML writer may leave unquoted although they
+// would resolve to a number or boolean as values; bkl reads a key as its text.
+var PlainKeyStrings = []string{"1.10", "2.0", "+5", "1e3", "True", "010", "0x1F", "1.9"}
+
+func plainKeys(n *yaml.Node) {
+	if n.Kind == yaml.MappingNode {
+		for i := 0; i+1 < len(n.Content); i += 2 {
+			k := n.Content[i]
+			for _, s := range PlainKeyStrings {
+				if k.Kind == yaml.ScalarNode && k.Value == s {
+					k.Style = 0
+					k.Tag = "" // written as is: `1.10: v`
+				}
+			}
+		}
+	}
+	for _, c := range n.Content {
+		plainKeys(c)
+	}
 }
 
 func setFlow(n *yaml.Node) {
